@@ -475,19 +475,33 @@ func TestC08(t *testing.T) {
 				if !r.Mine(idx) {
 					continue
 				}
-				c := C08Case{Cfg: gen.Config{Transform: ec.tr, Entropy: ec.en, BlockSize: ec.bs, Jobs: ec.jobs, Checksum: ec.ck, HintClass: "absent"},
-					Data: gen.Recipe{Kind: ec.kind, Len: L, Seed: uint64(ci)}, Side: side, K: -1, Sticky: (L+ci)%2 == 0,
-					After: []string{"close", "close2", "write-close", "stop"}[(L/2+ci)%4], ReadJobs: uint(1 + L%3), BufSize: 1024}
-				if side == "source-read" {
-					c.WithData = L%5 == 0
-				} else if L%7 == 0 {
-					c.Prefix = []int{1, 7, 512}[L/7%3]
+				afters := []string{"close", "close2", "write-close", "stop"}
+				// one (fault persistence, caller model) combination per length; all eight where the end of the stream
+				// falls in the last bytes of a bitstream buffer (the end marker, the final word and Close meet there)
+				combos := [][2]int{{(L + ci) % 2, (L/2 + ci) % 4}}
+				if side == "sink-write" && L%1016 >= 950 {
+					combos = nil
+					for st := 0; st < 2; st++ {
+						for a := 0; a < 4; a++ {
+							combos = append(combos, [2]int{st, a})
+						}
+					}
 				}
-				if msg, fc := c08Sweep(r, c); msg != "" {
-					r.RecordFailure("iofault", fc, "", msg)
-					t.Fatalf("buffer-edge sweep: %s on %s", msg, jsonOf(fc))
+				for _, cb := range combos {
+					c := C08Case{Cfg: gen.Config{Transform: ec.tr, Entropy: ec.en, BlockSize: ec.bs, Jobs: ec.jobs, Checksum: ec.ck, HintClass: "absent"},
+						Data: gen.Recipe{Kind: ec.kind, Len: L, Seed: uint64(ci)}, Side: side, K: -1, Sticky: cb[0] == 0,
+						After: afters[cb[1]], ReadJobs: uint(1 + L%3), BufSize: 1024}
+					if side == "source-read" {
+						c.WithData = L%5 == 0
+					} else if L%7 == 0 && len(combos) == 1 {
+						c.Prefix = []int{1, 7, 512}[L/7%3]
+					}
+					if msg, fc := c08Sweep(r, c); msg != "" {
+						r.RecordFailure("iofault", fc, "", msg)
+						t.Fatalf("buffer-edge sweep: %s on %s", msg, jsonOf(fc))
+					}
+					r.Label("edge-sweep")
 				}
-				r.Label("edge-sweep")
 			}
 		}
 	}
